@@ -321,6 +321,42 @@ fn round_trip<T: Serialize + DeserializeOwned + PartialEq + Debug>(v: &T) -> (bo
             }
         }
     }
+    // ... and through the library's own interchange formats (compact canonical JSON and its pretty variant)
+    for (name, pretty) in [("Json", false), ("JsonPretty", true)] {
+        use in_toto::interchange::{DataInterchange, Json, JsonPretty};
+        let val = serde_json::to_value(v).unwrap();
+        let bytes = guarded(|| if pretty { JsonPretty::canonicalize(&val) } else { Json::canonicalize(&val) });
+        match bytes {
+            Ok(Ok(b)) => {
+                let back: Result<Result<T, String>, String> =
+                    guarded(|| if pretty { JsonPretty::from_slice::<T>(&b) } else { Json::from_slice::<T>(&b) }.map_err(|e| e.to_string()));
+                match back {
+                    Ok(Ok(x)) => {
+                        if x != *v {
+                            value_ok = false;
+                            detail.get_or_insert(format!("value changed through {name}"));
+                        }
+                    }
+                    Ok(Err(e)) => {
+                        value_ok = false;
+                        detail.get_or_insert(format!("own {name} output rejected: {e}"));
+                    }
+                    Err(p) => {
+                        value_ok = false;
+                        detail.get_or_insert(format!("panic: {p}"));
+                    }
+                }
+            }
+            Ok(Err(e)) => {
+                value_ok = false;
+                detail.get_or_insert(format!("{name} refuses the value: {e}"));
+            }
+            Err(p) => {
+                value_ok = false;
+                detail.get_or_insert(format!("panic: {p}"));
+            }
+        }
+    }
     (value_ok, text_ok, detail)
 }
 
